@@ -76,11 +76,12 @@ def findOrAddCore (i : Nat) (v w : Int) : M Int := fun m =>
       | (.ok _, m3) => (.ok (r * (u : Int)), m3)
 
 /-- `find_or_add(i, v, w)` for a level given as a Python int -/
-def findOrAdd (i : Int) (v w : Int) : M Int := do
+def findOrAdd (i : Int) (v w : Int) : M Int := fun m =>
   -- `if self._reordering_context: _request_reordering(self)`
-  if (← M.get).ctx then requestReordering
-  if i < 0 then M.throw .value
-  findOrAddCore i.toNat v w
+  match (if m.ctx then requestReordering m else (.ok (), m)) with
+  | (.error e, m1) => (.error e, m1)
+  | (.ok _, m1) =>
+    if i < 0 then (.error .value, m1) else findOrAddCore i.toNat v w m1
 
 /-- `_top_cofactor(u, i)` -/
 def topCofactor (t : Tbl) (u : Int) (i : Nat) : Except Err (Int × Int) :=
@@ -97,28 +98,34 @@ def liftE (x : Except Err α) : M α := fun m =>
   | .ok a => (.ok a, m)
   | .error e => (.error e, m)
 
-/-- `_ite(g, u, v)`; fuel bounds the recursion depth (levels strictly increase) -/
+/-- `_ite(g, u, v)`; fuel bounds the recursion depth (levels strictly increase).
+Written without `do` so that proofs can unfold it. -/
 def iteF : Nat → Int → Int → Int → M Int
-  | 0, _, _, _ => M.throw .fuel
-  | f+1, g, u, v => do
-    if g = 1 then return u
-    if g = -1 then return v
-    let m ← M.get
+  | 0, _, _, _ => fun m => (.error .fuel, m)
+  | f+1, g, u, v => fun m =>
+    if g = 1 then (.ok u, m) else
+    if g = -1 then (.ok v, m) else
     match m.cache[iteKey g u v]? with
-    | some w => return w
+    | some w => (.ok w, m)
     | none =>
-      let lg ← M.ofOption .key (m.tbl.levelOf? g)
-      let lu ← M.ofOption .key (m.tbl.levelOf? u)
-      let lv ← M.ofOption .key (m.tbl.levelOf? v)
-      let z := min lg (min lu lv)
-      let (g0, g1) ← liftE (topCofactor m.tbl g z)
-      let (u0, u1) ← liftE (topCofactor m.tbl u z)
-      let (v0, v1) ← liftE (topCofactor m.tbl v z)
-      let p ← iteF f g0 u0 v0
-      let q ← iteF f g1 u1 v1
-      let w ← findOrAdd z p q
-      M.modify fun m => { m with cache := m.cache.insert (iteKey g u v) w }
-      return w
+      match m.tbl.levelOf? g, m.tbl.levelOf? u, m.tbl.levelOf? v with
+      | some lg, some lu, some lv =>
+        let z := min lg (min lu lv)
+        match topCofactor m.tbl g z, topCofactor m.tbl u z, topCofactor m.tbl v z with
+        | .ok (g0, g1), .ok (u0, u1), .ok (v0, v1) =>
+          match iteF f g0 u0 v0 m with
+          | (.error e, m1) => (.error e, m1)
+          | (.ok p, m1) =>
+            match iteF f g1 u1 v1 m1 with
+            | (.error e, m2) => (.error e, m2)
+            | (.ok q, m2) =>
+              match findOrAdd z p q m2 with
+              | (.error e, m3) => (.error e, m3)
+              | (.ok w, m3) => (.ok w, { m3 with cache := m3.cache.insert (iteKey g u v) w })
+        | .error e, _, _ => (.error e, m)
+        | _, .error e, _ => (.error e, m)
+        | _, _, .error e => (.error e, m)
+      | _, _, _ => (.error .key, m)
 
 /-- `_ite` with the fuel the invariant makes sufficient -/
 def iteRaw (g u v : Int) : M Int := do
